@@ -1,4 +1,4 @@
 From Coq Require Import List NArith Extraction ExtrOcamlBasic.
-From DDP Require Import Rt.Heap Lower.Own.
+From DDP Require Import Rt.Heap Lower.Own Lower.OwnCheck.
 Extraction Language OCaml.
-Extraction "c05_model.ml" check_ledger balancedb compile run_program.
+Extraction "c05_model.ml" check_ledger balancedb compile run_program program_ok.
